@@ -1213,6 +1213,8 @@ class C16(Prop):
                 return "object %d: kind model %s impl %s" % (a, mo["k"], io["k"])
             for f in sorted(set(mo) | set(io)):
                 x, y = mo.get(f), io.get(f)
+                if f == "modn" and mo["k"] == "cls":
+                    continue   # a class's __module__ lives in its dict and is synced like any attribute (compared there)
                 where = "object %d (%s %s).%s" % (a, mo["k"], mo.get("name", ""), f)
                 if f in ("dict", "cls", "func", "self", "content") and isinstance(x, int) and isinstance(y, int):
                     d = pair(x, y, where)
